@@ -4,7 +4,9 @@
 package main
 
 import (
+	"context"
 	"fmt"
+	"sort"
 	"os"
 	"sync"
 	"time"
@@ -92,6 +94,55 @@ loop:
 	fmt.Println("first", <-res)
 	v, ok := <-time.After(time.Millisecond)
 	fmt.Println("after", ok, !v.IsZero())
+	// sync.Cond: a single-slot mailbox between a producer and this goroutine
+	var mu sync.Mutex
+	cond := sync.NewCond(&mu)
+	slot, full := 0, false
+	go func() {
+		for i := 1; i <= 5; i++ {
+			mu.Lock()
+			for full {
+				cond.Wait()
+			}
+			slot, full = i, true
+			cond.Broadcast()
+			mu.Unlock()
+		}
+	}()
+	got := 0
+	for n := 0; n < 5; n++ {
+		mu.Lock()
+		for !full {
+			cond.Wait()
+		}
+		got += slot
+		full = false
+		cond.Broadcast()
+		mu.Unlock()
+	}
+	fmt.Println("mailbox", got)
+	// context: a deadline that expires, one that is cancelled first, AfterFunc
+	ctx, cancel := context.WithTimeout(context.Background(), 50*time.Millisecond)
+	fired := make(chan string, 1)
+	context.AfterFunc(ctx, func() { fired <- "afterfunc" })
+	<-ctx.Done()
+	fmt.Println("ctx", ctx.Err(), <-fired)
+	cancel()
+	ctx2, cancel2 := context.WithTimeout(context.Background(), time.Hour)
+	child, cancelChild := context.WithCancel(ctx2)
+	cancel2()
+	<-child.Done()
+	fmt.Println("ctx2", ctx2.Err(), child.Err())
+	cancelChild()
+	// sync.Map: whatever the order of Range, the set is the same
+	var sm sync.Map
+	for i := 0; i < 5; i++ {
+		sm.Store(i, i*i)
+	}
+	var ks []int
+	sm.Range(func(k, v any) bool { ks = append(ks, k.(int)); return true })
+	sort.Ints(ks)
+	fmt.Println("syncmap", ks)
 	start := time.Now()
 	time.Sleep(time.Second)
 	fmt.Println("slept", time.Since(start) >= time.Second)
